@@ -45,6 +45,15 @@ theorem decr_is_release : decrIsRelease Atomics.proto = true := by decide
 /-- The `Overflow` branch of `Arc::decr` acquires (fence) before the caller frees the box. -/
 theorem decr_overflow_has_acquire_fence : decrAcquires Atomics.proto = true := by decide
 
+/-- After the `fetch_sub` of `Arc::decr` nothing touches the counter any more (only fences and
+the returned value), in any build profile: once its share is given back, the block may be
+freed by another thread, so even a `debug_assert!` reading the count would be a use after free. -/
+theorem no_counter_access_after_release : decrNoAccessAfterRelease Atomics.proto = true := by decide
+
+/-- No `debug_assert!` of the counter methods accesses the counter (the debug and release
+builds run the same protocol); when this breaks the right-hand side lists the sites. -/
+theorem no_debug_only_accesses : Atomics.debugOnlyAccesses = [] := by decide
+
 /-- `Arc::incr` is a relaxed load followed by a compare-exchange loop: the increment is a
 read-modify-write, never a load + store. -/
 theorem incr_is_rmw : incrShape Atomics.proto = true := by decide
